@@ -40,8 +40,8 @@ theorem Sim.insertLeaf (parent : Option Nat) (cur : Leaf) (key lsn : Nat) (value
     Sim (insertLeaf parent cur key lsn value root) := by
   rw [insertLeaf_eq]
   exact Sim.ite (Sim.throw _) (Sim.ite (Sim.throw _)
-    (Sim.ite (Sim.unmodelledS _)
-    ((Sim.putNode _ _).bind fun _ => Sim.ite (Sim.pure _) (Sim.leafSplit _ _ _ _))))
+    (Sim.ite (Sim.unmodelledS _) (Sim.ite (Sim.unmodelledS _)
+    ((Sim.putNode _ _).bind fun _ => Sim.ite (Sim.pure _) (Sim.leafSplit _ _ _ _)))))
 
 theorem Sim.intSplitUp (parent : Option Nat) (curOff newOff midKey lsn root1 : Nat) :
     Sim (intSplitUp parent curOff newOff midKey lsn root1) := by
